@@ -359,6 +359,261 @@ mut(
 )
 
 
+# ---------------------------------------------------------------- benign refactors
+# Correct-but-different implementations: the checks must stay silent (exit 0, no
+# VIOLATION, no HARNESS-ERROR).  This is the false-alarm side of the self-test.
+B = []
+
+
+def benign(mid, prop, file, old, new, runs=None):
+    B.append({"id": "benign/" + mid, "prop": prop, "edits": [(file, old, new)], "runs": runs, "benign": True})
+
+
+benign(
+    "c19-pathlib-fsync",
+    "C19",
+    "bits/p2p.py",
+    """    if not os.path.exists(datadir):
+        os.makedirs(datadir)
+
+    dat_files = sorted([f for f in os.listdir(datadir) if f.endswith(".dat")])
+    if not dat_files:
+        filepath = os.path.join(datadir, "blk00000.dat")
+    else:
+        filepath = os.path.join(datadir, dat_files[-1])
+
+    dat_file = open(filepath, "ab")
+    for blk in blocks:
+        blk_data = MAGIC_START_BYTES + len(blk).to_bytes(4, "little") + blk
+        if len(blk_data) + dat_file.tell() <= MAX_BLOCKFILE_SIZE:
+            dat_file.write(blk_data)
+        else:
+            dat_file.close()
+            new_blk_no = (
+                int(os.path.split(filepath)[-1].split(".dat")[0].split("blk")[-1]) + 1
+            )
+            filename = f"blk{str(new_blk_no).zfill(5)}.dat"
+            filepath = os.path.join(datadir, filename)
+            dat_file = open(filepath, "ab")
+            dat_file.write(blk_data)
+    dat_file.close()
+""",
+    """    import pathlib
+    import re
+
+    d = pathlib.Path(datadir)
+    d.mkdir(parents=True, exist_ok=True)
+    numbers = sorted(int(m.group(1)) for m in (re.fullmatch(r"blk(\\d{5})\\.dat", p.name) for p in d.iterdir()) if m)
+    number = numbers[-1] if numbers else 0
+    path = d / ("blk%05d.dat" % number)
+    size = path.stat().st_size if path.exists() else 0
+    for blk in blocks:
+        record = MAGIC_START_BYTES + len(blk).to_bytes(4, "little") + blk
+        if size + len(record) > MAX_BLOCKFILE_SIZE:
+            number += 1
+            path = d / ("blk%05d.dat" % number)
+            size = 0
+        with open(path, "ab") as f:
+            f.write(record)
+            f.flush()
+            os.fsync(f.fileno())
+        size += len(record)
+    if not blocks and not path.exists():
+        path.touch() if False else open(path, "ab").close()
+""".replace("\\\\", "\\"),
+    runs=1500,
+)
+benign(
+    "c19-os-level-io",
+    "C19",
+    "bits/p2p.py",
+    """    dat_file = open(filepath, "ab")
+    for blk in blocks:
+        blk_data = MAGIC_START_BYTES + len(blk).to_bytes(4, "little") + blk
+        if len(blk_data) + dat_file.tell() <= MAX_BLOCKFILE_SIZE:
+            dat_file.write(blk_data)
+        else:
+            dat_file.close()
+            new_blk_no = (
+                int(os.path.split(filepath)[-1].split(".dat")[0].split("blk")[-1]) + 1
+            )
+            filename = f"blk{str(new_blk_no).zfill(5)}.dat"
+            filepath = os.path.join(datadir, filename)
+            dat_file = open(filepath, "ab")
+            dat_file.write(blk_data)
+    dat_file.close()
+""",
+    """    def _write_all(fd, data):
+        while data:
+            n = os.write(fd, data)
+            data = data[n:]
+
+    fd = os.open(filepath, os.O_WRONLY | os.O_CREAT | os.O_APPEND)
+    size = os.fstat(fd).st_size
+    for blk in blocks:
+        blk_data = MAGIC_START_BYTES + len(blk).to_bytes(4, "little") + blk
+        if len(blk_data) + size > MAX_BLOCKFILE_SIZE:
+            os.fsync(fd)
+            os.close(fd)
+            new_blk_no = int(os.path.basename(filepath)[3:8]) + 1
+            filepath = os.path.join(datadir, "blk%05d.dat" % new_blk_no)
+            fd = os.open(filepath, os.O_WRONLY | os.O_CREAT | os.O_APPEND)
+            size = 0
+        _write_all(fd, blk_data)
+        size += len(blk_data)
+    os.close(fd)
+""",
+    runs=1500,
+)
+benign(
+    "c18-lock-and-queue",
+    "C18",
+    "bits/p2p.py",
+    """            if command in self._registered_commands_to_handle:
+                self.handle_command(peer_no, command, payload)
+            else:
+                self._msg_queue.append((peer_no, command, payload))
+""",
+    """            if not hasattr(self, "_qlock"):
+                import threading
+
+                self.__dict__.setdefault("_qlock", threading.Lock())
+            handled = command in self._registered_commands_to_handle
+            if handled:
+                self.handle_command(peer_no, command, payload)
+            else:
+                with self._qlock:
+                    self._msg_queue.append((peer_no, command, payload))
+""",
+    runs=4000,
+)
+benign(
+    "c18-module-lock",
+    "C18",
+    "bits/p2p.py",
+    """            if command in self._registered_commands_to_handle:
+                self.handle_command(peer_no, command, payload)
+            else:
+                self._msg_queue.append((peer_no, command, payload))
+""",
+    """            with _QUEUE_LOCK:
+                handled = command in self._registered_commands_to_handle
+                if not handled:
+                    self._msg_queue.append((peer_no, command, payload))
+            if handled:
+                with _SEND_LOCK:
+                    self.handle_command(peer_no, command, payload)
+""",
+    runs=4000,
+)
+B[-1]["edits"].append(("bits/p2p.py", "from threading import Event\n", "from threading import Event, Lock, RLock\n"))
+B[-1]["edits"].append(("bits/p2p.py", "log = logging.getLogger(__name__)\nlog.setLevel(logging.DEBUG)\n", "log = logging.getLogger(__name__)\nlog.setLevel(logging.DEBUG)\n_QUEUE_LOCK = Lock()\n_SEND_LOCK = RLock()\n"))
+benign(
+    "c17-recv-into-buffered",
+    "C17",
+    "bits/p2p.py",
+    """    msg = b""
+    while len(msg) != MSG_HEADER_LEN:
+        chunk = sock.recv(MSG_HEADER_LEN - len(msg))
+        if not chunk:
+            raise ConnectionError("connection closed by peer while reading header")
+        msg += chunk
+""",
+    """    def _read_exact(n, what):
+        buf = bytearray(n)
+        view = memoryview(buf)
+        got = 0
+        while got < n:
+            k = sock.recv_into(view[got:], n - got)
+            if not k:
+                raise ConnectionError(f"connection closed by peer while reading {what}")
+            got += k
+        return bytes(buf)
+
+    msg = _read_exact(MSG_HEADER_LEN, "header")
+""",
+    runs=20000,
+)
+benign(
+    "c01-rfc6979-style",
+    "C01",
+    "bits/ecmath.py",
+    """        k = secrets.randbelow(N)
+        while not k:
+            k = secrets.randbelow(N)
+""",
+    """        import hashlib as _h
+        import hmac as _hm
+
+        _ctr = 0 if not r and not s and "_ctr" not in locals() else _ctr + 1
+        k = 0
+        while not k:
+            k = int.from_bytes(_hm.new(key.to_bytes(32, "big"), (digest % N).to_bytes(32, "big") + _ctr.to_bytes(4, "big"), _h.sha256).digest(), "big") % N
+            _ctr += 1
+""",
+    runs=120,
+)
+benign(
+    "c01-hedged-token-bytes",
+    "C01",
+    "bits/ecmath.py",
+    """        k = secrets.randbelow(N)
+        while not k:
+            k = secrets.randbelow(N)
+""",
+    """        import hashlib as _h
+
+        k = 0
+        while not k:
+            aux = secrets.token_bytes(32)
+            k = int.from_bytes(_h.sha256(aux + key.to_bytes(32, "big") + (digest % N).to_bytes(32, "big")).digest(), "big") % N
+""",
+    runs=120,
+)
+benign(
+    "c03-rejection-sampling",
+    "C03",
+    "bits/keys.py",
+    '    return (secrets.randbelow(bits.ecmath.SECP256K1_N - 1) + 1).to_bytes(32, "big")\n',
+    """    while True:
+        candidate = secrets.token_bytes(32)
+        if 0 < int.from_bytes(candidate, "big") < bits.ecmath.SECP256K1_N:
+            return candidate
+""",
+    runs=160,
+)
+benign(
+    "c16-decimal-amounts",
+    "C16",
+    "bits/tx.py",
+    '        amount = round(utxo["amount"] * 1e8)\n',
+    '        amount = int(__import__("decimal").Decimal(repr(utxo["amount"])).scaleb(8).to_integral_value())\n',
+    runs=480,
+)
+
+
+def judge_benign(m, workers):
+    root = _scratch_root()
+    try:
+        dst = os.path.join(root, "src")
+        shutil.copytree(SRC, dst, ignore=shutil.ignore_patterns("__pycache__", "*.egg-info"))
+        for file, old, new in m["edits"]:
+            repl(os.path.join(dst, file), old, new)
+        env = dict(os.environ, BITS_SRC=dst, VERIF_EVIDENCE_DIR=os.path.join(root, "evidence"), VERIF_REPLAY_DIR=os.path.join(root, "replays"), VERIF_WORKERS=str(workers))
+        cmd = [os.path.join(ROOT, "check"), m["prop"], "--tier", "quick"]
+        if m.get("runs"):
+            cmd += ["--runs", str(m["runs"])]
+        r = subprocess.run(cmd, capture_output=True, text=True, env=env, timeout=3600)
+        bad = [l for l in r.stdout.splitlines() if l.startswith("VIOLATION ") or l.startswith("HARNESS-ERROR") or l.startswith("#   clause=")]
+        if r.returncode == 0 and not bad:
+            return m["id"], "SILENT", r.stdout.strip().splitlines()[-1][:160]
+        return m["id"], "FALSE-ALARM" if r.returncode == 1 else "HARNESS-BROKE", " | ".join(bad[:3])[:400]
+    except Exception as e:
+        return m["id"], "ERROR", f"{type(e).__name__}: {e}"
+    finally:
+        shutil.rmtree(root, ignore_errors=True)
+
+
 def _scratch_root():
     base = "/dev/shm" if os.path.isdir("/dev/shm") else tempfile.gettempdir()
     return tempfile.mkdtemp(prefix="bits-sens-", dir=base)
@@ -425,20 +680,21 @@ def seeded():
 
 
 def main(a):
-    muts = list(M) + seeded()
+    muts = list(M) + seeded() + list(B)
     if a.only:
         muts = [m for m in muts if a.only in m["id"] or a.only == m["prop"]]
     par = 4
     res = []
     nd = {m["id"] for m in muts if m.get("not_decided")}
     with cf.ThreadPoolExecutor(par) as ex:
-        futs = [ex.submit(judge, m, 4) for m in muts]
+        futs = [ex.submit(judge_benign if m.get("benign") else judge, m, 4) for m in muts]
         for f in cf.as_completed(futs):
             mid, verdict, detail = f.result()
             if mid in nd and verdict == "MISSED":
                 verdict, detail = "NOT-DECIDED", "outside the claimed scope of this property's check (see meta.json / DESIGN.md 9.7); " + detail[:80]
             print(f"{verdict:14s} {mid:40s} {detail}", flush=True)
             res.append((mid, verdict))
-    missed = [r for r in res if r[1] not in ("CAUGHT", "NOT-DECIDED")]
-    print(f"# sensitivity: {len(res) - len(missed)}/{len(res)} mutations caught; not caught: {[m for m, _ in missed]}")
+    missed = [r for r in res if r[1] not in ("CAUGHT", "NOT-DECIDED", "SILENT")]
+    n_b = sum(1 for r in res if r[0].startswith("benign/"))
+    print(f"# sensitivity: {len(res) - len(missed)}/{len(res)} as expected ({len(res) - n_b} breaking changes must be CAUGHT, {n_b} benign refactors must stay SILENT); not as expected: {[m for m, _ in missed]}")
     return 0 if not missed else 1
